@@ -342,11 +342,11 @@ type wStats struct {
 }
 
 func buildWorker(scratch string) (bin string, counts map[string]int) {
-	src, err := os.ReadFile("/repo/lib/rac/conc_reader.go")
+	src, err := os.ReadFile(ev.Repo() + "/lib/rac/conc_reader.go")
 	if err != nil {
 		ev.Fatal("%v", err)
 	}
-	out, counts, err := rewriteConcReader("/repo/lib/rac/conc_reader.go", src, 8)
+	out, counts, err := rewriteConcReader(ev.Repo()+"/lib/rac/conc_reader.go", src, 8)
 	if err != nil {
 		ev.Fatal("rewriter refused lib/rac/conc_reader.go (an unknown concurrency construct would escape the scheduler): %v", err)
 	}
@@ -359,8 +359,8 @@ func buildWorker(scratch string) (bin string, counts map[string]int) {
 	vsPath := filepath.Join(scratch, "vsched.go")
 	os.WriteFile(vsPath, vs, 0o644)
 	ov := map[string]any{"Replace": map[string]string{
-		"/repo/lib/rac/conc_reader.go":  twin,
-		"/repo/lib/racvsched/vsched.go": vsPath,
+		ev.Repo() + "/lib/rac/conc_reader.go":  twin,
+		ev.Repo() + "/lib/racvsched/vsched.go": vsPath,
 	}}
 	b, _ := json.Marshal(ov)
 	ovPath := filepath.Join(scratch, "overlay.json")
